@@ -270,6 +270,8 @@ struct SysGen {
           int n = rows * cols, extra = r.range(0, 2), first = r.range(0, extra); EP v = gen(rows == 1 ? 1 : n + extra, rows == 1 ? n + extra : 1, depth - 1, &ca); c = ca; bool m = r.coin(75); int b = m ? 1 : 0;
           EP ix = mk(K_IDXRANGE, {intexpr(first + b), intexpr(first + n - 1 + b)}); EP e = mk(K_IDX, {v, ix}); e->matlab = m; return e; }
         EP M = gen(rows + 1, cols, depth - 1, &ca); c = ca; int first = r.range(0, 1);
+        if (r.coin(40)) { // a SINGLE range index on a matrix selects rows: M(a:b) = M(a:b,:)
+          EP e1 = mk(K_IDX, {M, mk(K_IDXRANGE, {lit_int(first + 1), lit_int(first + rows)})}); e1->matlab = true; return e1; }
         EP e = mk(K_IDX, {M, mk(K_IDXRANGE, {lit_int(first + 1), lit_int(first + rows)}), mk(K_IDXALL)}); e->matlab = true; return e; }
       default: { // vector / matrix literal built from components
         bool all = true; std::vector<EP> a;
